@@ -1,4 +1,5 @@
 import PlzVerif.Model.GC
+import PlzVerif.Lemmas.Cycle
 /-!
 Lemmas for C25: the keep set of `targetsToRemove` contains every root and is closed under dependencies;
 nothing in it is proposed for removal (when no `gc_sibling` label redirects the test), and no source file of a
@@ -308,5 +309,76 @@ theorem removeSrcs_not_kept {G : Graph} {Q : Query} {keep : List Nat} {f : Nat} 
   apply hnk
   unfold keepSrcs
   exact List.mem_flatMap.mpr ⟨k, hk, hf⟩
+
+/-! ### fuel: the recursion bound of `addTarget` is never reached -/
+
+/-- dependencies of targets are targets -/
+def GWF (G : Graph) : Prop := ∀ t ∈ G.nodes, (∀ d ∈ G.decl t, d ∈ G.nodes) ∧ (∀ d ∈ G.res t, d ∈ G.nodes)
+
+def KOK (G : Graph) (fuel : Nat) (s : KSt) : Prop :=
+  s.keep.Nodup ∧ (∀ x ∈ s.keep, x ∈ G.nodes) ∧ s.oof = false ∧ G.nodes.length + 1 ≤ fuel + s.keep.length
+
+theorem addDepsF_fuel (G : Graph) (fuel : Nat)
+    (ih : ∀ s t, KOK G fuel s → t ∈ G.nodes → KOK G fuel (addTarget G fuel s t) ∧ s.keep.length ≤ (addTarget G fuel s t).keep.length) :
+    ∀ (ds : List Nat) (s : KSt), (∀ d ∈ ds, d ∈ G.nodes) → KOK G fuel s →
+      KOK G fuel (addDepsF G fuel ds s) ∧ s.keep.length ≤ (addDepsF G fuel ds s).keep.length := by
+  intro ds
+  induction ds with
+  | nil => intro s _ hs; exact ⟨hs, Nat.le_refl _⟩
+  | cons d ds ihl =>
+    intro s hds hs
+    rw [addDepsF_cons]
+    obtain ⟨h1, l1⟩ := ih s d hs (hds d (List.mem_cons_self ..))
+    obtain ⟨h2, l2⟩ := ihl _ (fun d' h => hds d' (List.mem_cons_of_mem _ h)) h1
+    exact ⟨h2, Nat.le_trans l1 l2⟩
+
+theorem addTarget_fuel (G : Graph) (hwf : GWF G) : ∀ (fuel : Nat) (s : KSt) (t : Nat), KOK G fuel s → t ∈ G.nodes →
+    KOK G fuel (addTarget G fuel s t) ∧ s.keep.length ≤ (addTarget G fuel s t).keep.length := by
+  intro fuel
+  induction fuel with
+  | zero =>
+    intro s t ⟨hn, hs, _, hf⟩ _
+    have := PlzVerif.Cycle.nodup_subset_length _ _ hn hs
+    omega
+  | succ fuel ih =>
+    intro s t hk ht
+    rw [addTarget_succ]
+    split
+    · exact ⟨hk, Nat.le_refl _⟩
+    · rename_i hnin
+      obtain ⟨hn, hs, ho, hf⟩ := hk
+      have hk1 : KOK G fuel { s with keep := t :: s.keep } := by
+        refine ⟨List.nodup_cons.mpr ⟨hnin, hn⟩, ?_, ho, by simp only [List.length_cons]; omega⟩
+        intro x hx
+        simp only [List.mem_cons] at hx
+        rcases hx with rfl | hx
+        · exact ht
+        · exact hs x hx
+      obtain ⟨hA, lA⟩ := addDepsF_fuel G fuel ih (G.decl t) _ (hwf t ht).1 hk1
+      obtain ⟨hB, lB⟩ := addDepsF_fuel G fuel ih (G.res t) _ (hwf t ht).2 hA
+      simp only [List.length_cons] at lA
+      obtain ⟨b1, b2, b3, b4⟩ := hB
+      exact ⟨⟨b1, b2, b3, by omega⟩, by omega⟩
+
+/-- with `--conservative` (no test pass) `targetsToRemove` never reaches a recursion bound -/
+theorem keepSet_fuel_conservative (G : Graph) (hwf : GWF G) (Q : Query) (hc : Q.includeTests = true)
+    (hs : ∀ t ∈ Q.subincs, t ∈ G.nodes) (ha : ∀ t ∈ Q.args, t ∈ G.nodes) : (keepSet G Q).oof = false := by
+  unfold keepSet
+  simp only [hc, ite_true]
+  have hfold : ∀ (ts : List Nat) (s : KSt), (∀ t ∈ ts, t ∈ G.nodes) → KOK G (G.nodes.length + 1) s →
+      KOK G (G.nodes.length + 1) (ts.foldl (fun s t => addTarget G (G.nodes.length + 1) s t) s) := by
+    intro ts
+    induction ts with
+    | nil => intro s _ h; exact h
+    | cons t ts ih =>
+      intro s hts h
+      simp only [List.foldl_cons]
+      exact ih _ (fun t' h' => hts t' (List.mem_cons_of_mem _ h'))
+        (addTarget_fuel G hwf _ s t h (hts t (List.mem_cons_self ..))).1
+  have h0 : KOK G (G.nodes.length + 1) { keep := [] } := ⟨List.nodup_nil, by simp, rfl, by simp⟩
+  have h1 := hfold (G.nodes.filter (isRoot G Q)) _ (fun t ht => (List.mem_filter.mp ht).1) h0
+  have h2 := hfold Q.subincs _ hs h1
+  have h3 := hfold Q.args _ ha h2
+  exact h3.2.2.1
 
 end PlzVerif.GC
